@@ -2,7 +2,7 @@
 from .. import conncheck
 
 SERVER = ['eof', 'ping', 'ping-empty', 'ping-125', 'ping-ping', 'two', 'text', 'frag-text', 'frag-cont', 'frag-end',
-          'ping-text-close', 'close-1000', 'ping!fail', 'silence']
+          'ping-text-close', 'close-1000', 'ping!fail', 'silence', 'ping-then-bad']
 APPS = ['send_text', 'send_pong', 'close']
 
 
@@ -20,7 +20,7 @@ class C14(conncheck.ConnCheck):
     kinds = ('wire-pong', 'wire-other', 'wire-close', 'events-differ', 'unexpected-event', 'events-missing', 'exception-escaped',
              'wire-invalid-frame', 'wire-garbage')
     expect_sites = ('pong', 'pong-suppressed', 'pong-write-fault', 'app:send_text@ping', 'app:close@ping', 'srv:ping-125',
-                    'srv:ping-ping', 'no-autopong')
+                    'srv:ping-ping', 'srv:ping-then-bad', 'srv:hs-deflate', 'no-autopong')
 
     def rule(self, tier):
         return ('server alphabet %s; application menu %s (<= %d reactions); auto_pong in {True, False}; %s. '
@@ -36,7 +36,7 @@ class C14(conncheck.ConnCheck):
         for ap in (True, False):
             if tier == 'quick':
                 for app in APPS:
-                    out.append({'name': 'q/%s/%s' % (ap, app), 'server': SERVER, 'handshake': ['hs-ok', 'hs-with-frame'], 'app': [app],
+                    out.append({'name': 'q/%s/%s' % (ap, app), 'server': SERVER, 'handshake': ['hs-ok', 'hs-with-frame', 'hs-deflate'], 'app': [app],
                                 'depth': d, 'max_dev': 1, 'auto_pong': ap})
             else:
                 for i, a in enumerate(APPS):
